@@ -347,13 +347,13 @@ const ZRTT_IDS: [ParameterId; 8] = [
 ];
 const ZRTT_DEFAULT: [u64; 8] = [0, 0, 0, 0, 0, 0, 2, 0];
 
-/// Build a server parameter set in which the first `n_present` of the eight 0-RTT relevant
-/// parameters are explicitly present with symbolic (valid) values, the others absent (default).
-fn zrtt_set<const N: usize>() -> (ServerParameters, [u64; 8]) {
+/// Build a server parameter set in which the N 0-RTT relevant parameters ZRTT_IDS[OFF..OFF+N] are
+/// explicitly present with symbolic (valid) values, the others absent (read as their defaults).
+fn zrtt_set<const OFF: usize, const N: usize>() -> (ServerParameters, [u64; 8]) {
     let mut p = ServerParameters::new();
     let mut eff = ZRTT_DEFAULT;
-    let mut k = 0;
-    while k < N {
+    let mut k = OFF;
+    while k < OFF + N {
         let v = any_varint();
         if k == 6 {
             kani::assume(v.into_u64() >= 2);
@@ -367,9 +367,9 @@ fn zrtt_set<const N: usize>() -> (ServerParameters, [u64; 8]) {
     (p, eff)
 }
 
-fn zrtt_check<const NO: usize, const NN: usize>() {
-    let (old, e_old) = zrtt_set::<NO>();
-    let (new, e_new) = zrtt_set::<NN>();
+fn zrtt_check<const OFF_O: usize, const N_O: usize, const OFF_N: usize, const N_N: usize>() {
+    let (old, e_old) = zrtt_set::<OFF_O, N_O>();
+    let (new, e_new) = zrtt_set::<OFF_N, N_N>();
     let got = old.is_0rtt_accepted(&new);
     let mut want = true;
     let mut k = 0;
@@ -387,48 +387,30 @@ fn zrtt_check<const NO: usize, const NN: usize>() {
 }
 
 /// C18: remembered parameters are honoured for 0-RTT iff each of the eight limits in the new set
-/// is no smaller (all eight present in both sets, values symbolic over the full range).
+/// is no smaller. First four limits (initial_max_data, initial_max_stream_data_*) present in both
+/// sets with symbolic full-range values, the other four absent (defaults) in both.
 #[kani::proof]
 #[kani::unwind(10)]
 #[kani::stub(core::fmt::write, stub_fmt_write)]
-fn c18_zero_rtt_all_present() {
-    zrtt_check::<8, 8>();
+fn c18_zero_rtt_first_four() {
+    zrtt_check::<0, 4, 0, 4>();
 }
 
-/// C18: same with absent parameters read as defaults (remembered set has 4 present, new set 2).
+/// C18: same for the last four limits (initial_max_streams_bidi/uni, active_connection_id_limit,
+/// max_datagram_frame_size).
+#[kani::proof]
+#[kani::unwind(10)]
+#[kani::stub(core::fmt::write, stub_fmt_write)]
+fn c18_zero_rtt_last_four() {
+    zrtt_check::<4, 4, 4, 4>();
+}
+
+/// C18: absent parameters are compared as their defaults: the remembered set has limits 2..6
+/// present, the new set limits 4..8 (so every combination present/absent occurs for some limit,
+/// incl. active_connection_id_limit whose default is 2).
 #[kani::proof]
 #[kani::unwind(10)]
 #[kani::stub(core::fmt::write, stub_fmt_write)]
 fn c18_zero_rtt_defaults() {
-    zrtt_check::<4, 2>();
+    zrtt_check::<2, 4, 4, 4>();
 }
-
-// ---- TEMP experiments (to be removed)
-fn sample_pa() -> PreferredAddress {
-    PreferredAddress::new(
-        std::net::SocketAddrV4::new(std::net::Ipv4Addr::new(192, 0, 2, 1), 443),
-        std::net::SocketAddrV6::new(std::net::Ipv6Addr::LOCALHOST, 443, 0, 0),
-        ConnectionId::from_slice(&[1, 2, 3, 4]),
-        ResetToken::new(&[9u8; 16]),
-    )
-}
-enum E1 { A(Bytes), B, C(VarInt) }
-enum E2 { A(Bytes), B, C(PreferredAddress) }
-enum E3 { B, C(PreferredAddress), D(VarInt) }
-enum E4 { A(Bytes), B, C(ConnectionId) }
-enum E5 { A(Bytes), B, C(Duration) }
-enum E6 { A(u64), B, C(PreferredAddress) }
-enum E7 { A(u64), B, C([u8; 21]) }
-enum E8 { A(u64), B, C(std::net::SocketAddrV6) }
-#[kani::proof] fn t_bx_pa() { let b = Box::new(sample_pa()); core::mem::forget(b); }
-#[kani::proof] fn t_bx_bytes() { let b = Box::new(Bytes::from_static(b"ab")); core::mem::forget(b); }
-#[kani::proof] fn t_bx_e1() { let b = Box::new(E1::B); core::mem::forget(b); }
-#[kani::proof] fn t_bx_e2() { let b = Box::new(E2::B); core::mem::forget(b); }
-#[kani::proof] fn t_bx_e3() { let b = Box::new(E3::B); core::mem::forget(b); }
-#[kani::proof] fn t_bx_e4() { let b = Box::new(E4::B); core::mem::forget(b); }
-#[kani::proof] fn t_bx_e5() { let b = Box::new(E5::B); core::mem::forget(b); }
-#[kani::proof] fn t_bx_e6() { let b = Box::new(E6::B); core::mem::forget(b); }
-#[kani::proof] fn t_bx_e7() { let b = Box::new(E7::B); core::mem::forget(b); }
-#[kani::proof] fn t_bx_e8() { let b = Box::new(E8::B); core::mem::forget(b); }
-#[kani::proof] fn t_box_pv() { let b = Box::new(ParameterValue::True); assert!(matches!(*b, ParameterValue::True)); core::mem::forget(b); }
-#[kani::proof] #[kani::unwind(10)] fn t_box_params() { let b = std::sync::Arc::new(ClientParameters::new()); assert!(b.is_empty()); core::mem::forget(b); }
